@@ -26,7 +26,12 @@
 //     renamed under, the reference grpc.Server. The state key is extended by
 //     which object each entry holds and the current name of every held object
 //     (model.keyOf); swept around every state of the full pool and crossed with
-//     everything else to closure in a pool of three descriptors (see main).
+//     everything else to closure in a pool of three descriptors (see main);
+//   - liveness after a REFUSED registration: (prefix state x registration attempt that is
+//     refused there x the first operation made on the object afterwards), every such probe
+//     on a fresh object in a child process; an operation that never returns after the
+//     caller has recovered the refusal, while the same sequence without the refusal
+//     completes, is a violation ("leaves earlier registrations intact"), see isolate.go.
 package main
 
 import (
@@ -208,6 +213,28 @@ type pctx struct {
 	writes   int             // elements / map entries written by mutate ops
 	nilAcc   int             // fresh registrations with an untyped nil handler that were accepted
 	nilRef   int             // ... that were refused by panicking
+
+	// liveness after a refused registration (see isolate.go)
+	step       int          // index of the op being applied
+	bareBefore bool         // the op makes its own library call first (no GetServiceInfo for the state key before it)
+	bareAfter  bool         // ... and none after it either (the NEXT op's call is the first one after this op)
+	light      bool         // the state oracle asks for the pool names and the unknown name only (no near misses)
+	trace      func(string) // verbose child: one line before every library call / around every op
+	refusals   []refusal    // registrations that were refused by a panic which was recovered
+}
+
+// refusal: op index and class of a registration that panicked as (or where) the model allows
+type refusal struct {
+	Idx   int    `json:"idx"`
+	Class string `json:"class"`
+}
+
+// call announces a library call (verbose child only): the last announced call of a case that
+// never finishes is the one that hung.
+func (x *pctx) call(what string) {
+	if x.trace != nil {
+		x.trace("C " + what)
+	}
 }
 
 var refServers int64
@@ -450,6 +477,7 @@ func newCarrier(name string) carrier {
 // keeps both results: every result ever handed out stays reachable for the
 // mutate ops.
 func (x *pctx) info(c carrier) (got, want map[string]grpc.ServiceInfo) {
+	x.call("info")
 	got = c.Info()
 	want = x.ref.GetServiceInfo()
 	x.held = append(x.held, got)
@@ -461,6 +489,7 @@ func (x *pctx) info(c carrier) (got, want map[string]grpc.ServiceInfo) {
 // handler events it caused and whether the transport reported success.
 func (x *pctx) dispatch(c carrier, svc, method string, isStream bool, sd streamDef) (evs []event, ok bool, obs string) {
 	x.takeEvents()
+	x.call("query")
 	switch c := c.(type) {
 	case *inprocCarrier:
 		full := "/" + svc + "/" + method
@@ -947,7 +976,28 @@ func (x *pctx) register(c carrier, m model, op, kind, name string, o *dobj, tag,
 	} else if !dup && kind == "reg-tnil" {
 		detail = name + "[new=tnil]"
 	}
+	// class of the refusal (if it is one): why the registration has to be / may be refused
+	class := kind
+	if wellTyped || kind == "reg-nil" {
+		class = "nil"
+		if dup {
+			class = "dup"
+		}
+	}
+	if strings.HasPrefix(op, "share-") {
+		class = "share-" + class
+	}
+	if x.trace != nil && (wantPanic || either) {
+		x.trace(fmt.Sprintf("X %d %s", x.step, class))
+	}
+	x.call("register")
 	panicked, pv := callRegister(c, o.d, h)
+	if panicked && (wantPanic || either) {
+		x.refusals = append(x.refusals, refusal{x.step, class})
+		if x.trace != nil {
+			x.trace(fmt.Sprintf("P %d %s", x.step, class))
+		}
+	}
 	x.lastObs = fmt.Sprintf("RegisterService(%s, %s) with name %s panicked=%v", x.id(o.d), x.id(h), name, panicked)
 	if panicked {
 		x.lastObs += fmt.Sprintf(" (%v)", pv)
@@ -976,6 +1026,10 @@ func (x *pctx) register(c carrier, m model, op, kind, name string, o *dobj, tag,
 		m[name] = reg{obj: o, handler: h, hkind: hkindOf(kind)}
 		x.ref.RegisterService(o.d, h) // the same registration on the reference server
 	}
+	if x.bareAfter {
+		// liveness probe: the first library call after this registration attempt is the next op's
+		return
+	}
 	if after := x.implKey(c, m); after != m.key() {
 		cl := "state-after-" + kind
 		if dup && (wellTyped || kind == "reg-nil") {
@@ -993,7 +1047,11 @@ func (x *pctx) applyOp(c carrier, m model, op string, step int) (probs []problem
 	if i := strings.IndexByte(op, ':'); i >= 0 {
 		kind, name = op[:i], op[i+1:]
 	}
-	before := x.implKey(c, m)
+	x.step = step
+	before := m.key()
+	if !x.bareBefore {
+		before = x.implKey(c, m)
+	}
 	tag := fmt.Sprintf("s%d", step)
 	x.lastObs = "read evaluated by the oracle; registry unchanged"
 	switch {
@@ -1080,6 +1138,7 @@ func (x *pctx) queryOracle(c carrier, m model, q qname, probs *[]problem) {
 	name := q.name
 	want, registered := m[name]
 	if mc, ok := c.(*mapCarrier); ok {
+		x.call("query")
 		d, h := mc.m.QueryService(name)
 		if registered {
 			if d != want.obj.d || h != want.handler {
@@ -1130,6 +1189,11 @@ func (x *pctx) queryOracle(c carrier, m model, q qname, probs *[]problem) {
 	default:
 		calls = []call{{"X", false, streamDef{}, false}, {"Y", true, streamDef{"Y", true, true}, false}}
 	}
+	if len(calls) == 0 {
+		// a service without methods (p.Empty): the lookup is still made, by calling a method the
+		// descriptor does not have -- no handler may run and the transport must not report success
+		calls = []call{{"NoSuchMethod", false, streamDef{}, true}}
+	}
 	for _, cl := range calls {
 		evs, ok, obs := x.dispatch(c, name, cl.method, cl.stream, cl.sd)
 		switch {
@@ -1171,6 +1235,7 @@ func (x *pctx) forEachOracle(mc *mapCarrier, m model, probs *[]problem) {
 	seen := map[pair]int{}
 	var order []pair
 	total := 0
+	x.call("foreach")
 	mc.m.ForEach(func(d *grpc.ServiceDesc, h interface{}) {
 		total++
 		p := pair{d, h}
@@ -1312,6 +1377,7 @@ func (x *pctx) infoOracle(c carrier, m model, probs *[]problem) {
 	}
 	if clash {
 		for i := 0; i < infoRepeats; i++ {
+			x.call("info")
 			compare(c.Info())
 		}
 	}
@@ -1324,7 +1390,11 @@ func (x *pctx) stateOracle(c carrier, m model) (probs []problem) {
 	if k := x.implKey(c, m); k != m.key() {
 		probs = append(probs, problem{clause: "state-key", detail: "", what: fmt.Sprintf("registry reports %s, model %s", k, m.key())})
 	}
-	for _, q := range queryNames(c.Name()) {
+	qns := queryNames(c.Name())
+	if x.light {
+		qns = qns[:len(poolFor(c.Name()))+1] // the pool names and the unknown name
+	}
+	for _, q := range qns {
 		q := q
 		guarded("query", q.name, &probs, func() { x.queryOracle(c, m, q, &probs) })
 	}
@@ -1349,6 +1419,8 @@ func (x *pctx) stateOracle(c carrier, m model) (probs []problem) {
 type replayCase struct {
 	Carrier string   `json:"carrier"`
 	Ops     []string `json:"ops"`
+	Probe   bool     `json:"probe,omitempty"` // liveness probe: see job.probe
+	Hang    bool     `json:"hang,omitempty"`  // the case was seen to hang (replay judges it the same way)
 }
 
 var progress int64
@@ -1359,6 +1431,14 @@ type job struct {
 	ops     []string
 	all     bool
 	control bool // the control run of a path with mutate ops (never starts another control)
+	// liveness probe: the last two ops are (a registration attempt R, a follow-up op F). R makes no
+	// library call but RegisterService itself, and F's own library call is the FIRST call made on the
+	// object after R; the state oracle after F asks for the pool names and the unknown name only.
+	probe bool
+	trace func(string) // verbose child
+	// control of a case that hung inside a registration attempt: the last op makes its RegisterService
+	// call and nothing after it (no state key, no reads)
+	endAtRegister bool
 }
 
 type result struct {
@@ -1369,6 +1449,7 @@ type result struct {
 	nilAcc, nilRef int
 	names          []string // the model's registrations after the path
 	edited         bool     // a descriptor-edit op was applied (not skipped as disabled)
+	refusals       []refusal
 }
 
 // runPath replays ops on a fresh carrier (and a fresh reference server); the
@@ -1382,9 +1463,29 @@ func runPath(j job) (res result) {
 	c := newCarrier(j.carrier)
 	m := model{}
 	x.m = m
+	x.trace = j.trace
 	for i, op := range j.ops {
+		if x.trace != nil {
+			x.trace(fmt.Sprintf("A %d %s", i, op))
+		}
+		x.bareBefore, x.bareAfter = false, false
+		if j.probe && len(j.ops) >= 2 {
+			x.bareBefore = i >= len(j.ops)-2
+			x.bareAfter = i == len(j.ops)-2
+			x.light = true
+		}
+		if j.endAtRegister && i == len(j.ops)-1 {
+			x.bareAfter = true
+		}
 		res.probs = append(res.probs, x.applyOp(c, m, op, i)...)
-		if j.all || i == len(j.ops)-1 {
+		x.bareBefore, x.bareAfter = false, false
+		if j.endAtRegister && i == len(j.ops)-1 {
+			return
+		}
+		if (j.all && !(j.probe && i == len(j.ops)-2)) || i == len(j.ops)-1 {
+			if x.trace != nil {
+				x.trace(fmt.Sprintf("O %d", i))
+			}
 			res.probs = append(res.probs, x.absorb(x.stateOracle(c, m))...)
 		}
 	}
@@ -1405,7 +1506,7 @@ func runPath(j job) (res result) {
 				}
 			}
 			ctl := map[string]bool{}
-			for _, p := range runPath(job{j.carrier, ops, j.all, true}).probs {
+			for _, p := range runPath(job{carrier: j.carrier, ops: ops, all: j.all, control: true}).probs {
 				ctl[p.key()] = true
 			}
 			for i := range res.probs {
@@ -1421,6 +1522,7 @@ func runPath(j job) (res result) {
 	}
 	sort.Strings(res.names)
 	res.edited = x.edited
+	res.refusals = x.refusals
 	res.writes, res.nilAcc, res.nilRef = x.writes, x.nilAcc, x.nilRef
 	return
 }
@@ -1436,6 +1538,7 @@ func runAll(n int, mk func(i int) job) []result {
 	var next int64 = -1
 	var wg sync.WaitGroup
 	for w := 0; w < workers; w++ {
+		w := w
 		wg.Add(1)
 		go func() {
 			defer wg.Done()
@@ -1444,7 +1547,10 @@ func runAll(n int, mk func(i int) job) []result {
 				if i >= n {
 					return
 				}
-				out[i] = runPath(mk(i))
+				j := mk(i)
+				inflight.Store(w, j)
+				out[i] = runPath(j)
+				inflight.Delete(w)
 			}
 		}()
 	}
@@ -1459,21 +1565,36 @@ func opKind(op string) string {
 	return op
 }
 
+// selftest knobs (calibration of the hang machinery only; never set in a normal run):
+// VERIF_C15_SELFTEST=nodeadlock  a child keeps a ticker goroutine alive, so that the Go runtime cannot
+//
+//	            report a deadlock and the hang guard (no output) has to decide
+//	noprobes    the liveness probes are not run, so that a hang is met by the in-process
+//	            exploration and judged by the stall triage
+func selftest(knob string) bool {
+	for _, k := range strings.Split(os.Getenv("VERIF_C15_SELFTEST"), ",") {
+		if k == knob {
+			return true
+		}
+	}
+	return false
+}
+
+// stallWatch: 1 while cases are being run in this process (the cases run in child processes have
+// their own guard)
+var stallWatch int32
+
 func main() {
+	if len(os.Args) > 1 && os.Args[1] == "--child" {
+		childMain()
+		return
+	}
 	rep := vlib.NewReporter("C15")
 	t0 := time.Now()
-	go func() { // hang guard
-		last := int64(-1)
-		for {
-			time.Sleep(30 * time.Second)
-			p := atomic.LoadInt64(&progress)
-			if p == last {
-				fmt.Fprintf(os.Stderr, "INCONCLUSIVE: no progress for 30s in case %v\n", current.Load())
-				os.Exit(2)
-			}
-			last = p
-		}
-	}()
+
+	hangWhat := func(j job, v hangVerdict) (fp, what string, rc replayCase) {
+		return "C15|" + j.carrier + "|" + v.clause + "|" + v.detail, fmt.Sprintf("after ops %v: %s", j.ops, v.what), replayCase{j.carrier, append([]string(nil), j.ops...), j.probe, true}
+	}
 
 	if p := common.Arg("replay"); p != "" {
 		var rc replayCase
@@ -1481,7 +1602,16 @@ func main() {
 			fmt.Fprintln(os.Stderr, "INCONCLUSIVE:", err)
 			os.Exit(2)
 		}
-		res := runPath(job{rc.Carrier, rc.Ops, true, false})
+		// in a child process: the case may hang
+		j := job{carrier: rc.Carrier, ops: rc.Ops, all: true, probe: rc.Probe}
+		it := runIsolated([]job{j}, 1, nil, nil)[0]
+		if it.hang != nil {
+			fp, what, _ := hangWhat(j, *it.hang)
+			fmt.Printf("replay: carrier=%s ops=%v did not finish\n  %s\n  %s\n", rc.Carrier, rc.Ops, fp, what)
+			fmt.Printf("VIOLATION property=C15 replay=%s\n", p)
+			os.Exit(1)
+		}
+		res := it.res
 		fmt.Printf("replay: carrier=%s ops=%v final registry=%s model=%s\n", rc.Carrier, rc.Ops, res.key, res.modelKey)
 		for _, pr := range res.probs {
 			cl, what := pr.render()
@@ -1495,17 +1625,157 @@ func main() {
 	}
 
 	reported := map[string]bool{}
-	report := func(carrierName string, ops []string, probs []problem) {
+	reportJob := func(j job, probs []problem) {
 		for _, pr := range probs {
 			cl, what := pr.render()
-			fp := "C15|" + carrierName + "|" + cl + "|" + pr.detail
+			fp := "C15|" + j.carrier + "|" + cl + "|" + pr.detail
 			if reported[fp] {
 				continue
 			}
 			reported[fp] = true
-			rep.Violation(fp, fmt.Sprintf("after ops %v: %s", ops, what), replayCase{carrierName, append([]string(nil), ops...)})
+			rep.Violation(fp, fmt.Sprintf("after ops %v: %s", j.ops, what), replayCase{j.carrier, append([]string(nil), j.ops...), j.probe, false})
 		}
 	}
+	report := func(carrierName string, ops []string, probs []problem) {
+		reportJob(job{carrier: carrierName, ops: ops}, probs)
+	}
+	reportHang := func(j job, v hangVerdict) {
+		fp, what, rc := hangWhat(j, v)
+		if reported[fp] {
+			return
+		}
+		reported[fp] = true
+		rep.Violation(fp, what, rc)
+	}
+
+	go func() { // hang guard of the cases run in this process
+		last := int64(-1)
+		for {
+			time.Sleep(30 * time.Second)
+			p := atomic.LoadInt64(&progress)
+			if p == last && atomic.LoadInt32(&stallWatch) == 1 {
+				// the cases in flight are judged in child processes: a hang that follows a refused
+				// registration, and that the control without the refusal does not show, is a verdict
+				triageStall(reportHang, func() int {
+					return rep.Finish("model_checking", map[string]interface{}{
+						"evaluations":         atomic.LoadInt64(&progress),
+						"distinct_nontrivial": 0,
+						"exhaustive":          false,
+						"rule":                "the exploration was abandoned when cases stopped finishing; the cases in flight were judged in child processes (hang after a refused registration, control without the refusal completes)",
+					}, nil)
+				})
+			}
+			last = p
+		}
+	}()
+
+	// handler kinds of the descriptor-edit dimension per tier (the registration ops of the full-pool
+	// space always use all six)
+	sweepKinds := []string{"reg", "ill-other"}
+	if rep.Tier == "thorough" {
+		sweepKinds = regKinds
+	}
+	nontrivial := map[string]bool{}
+	var samples []interface{}
+
+	// ---------------- liveness after a refused registration (see isolate.go), in child processes
+	//
+	// every probe  prefix ; R ; F  (buildProbes). Round 1: the simplest probe of every class (carrier,
+	// refusal class of R, kind of F), each in a child of its own. Round 2: all the others; a class in
+	// which a probe was seen to hang (and reported) is closed: its remaining probes would be reported
+	// under the same fingerprint and are not run.
+	probeMaxRegs := 2
+	if rep.Tier == "thorough" {
+		probeMaxRegs = 3
+	}
+	var probes []probe
+	probeCounts := map[string]interface{}{}
+	for _, cn := range carrierNames {
+		ps := buildProbes(cn, probeMaxRegs, sweepKinds)
+		st := map[string]bool{}
+		rs := map[string]bool{}
+		for _, p := range ps {
+			st[p.state] = true
+			rs[p.state+" "+p.j.ops[len(p.j.ops)-2]] = true
+		}
+		probeCounts[cn] = map[string]int{"prefix_states": len(st), "state_x_refused_registration": len(rs), "probes": len(ps)}
+		probes = append(probes, ps...)
+	}
+	closed := map[string]bool{}
+	hungCarriers := map[string]bool{}
+	var round1, round2 []int
+	{
+		seen := map[string]bool{}
+		for i, p := range probes {
+			if !seen[p.class] {
+				seen[p.class] = true
+				round1 = append(round1, i)
+			} else {
+				round2 = append(round2, i)
+			}
+		}
+	}
+	probeItems := make([]isoItem, len(probes))
+	runRound := func(idx []int, chunk int) {
+		js := make([]job, len(idx))
+		for k, i := range idx {
+			js[k] = probes[i].j
+		}
+		items := runIsolated(js, chunk, func(k int) bool { return closed[probes[idx[k]].class] }, func(k int, v *hangVerdict) {
+			closed[probes[idx[k]].class] = true
+		})
+		for k, i := range idx {
+			probeItems[i] = items[k]
+		}
+	}
+	if !selftest("noprobes") {
+		runRound(round1, 1)
+		runRound(round2, 1000)
+	}
+	probesRun, probesSkipped, probeHangs, probeRefusals := 0, 0, 0, 0
+	probeClasses := map[string]bool{}
+	probeSampled := map[string]bool{}
+	for i, p := range probes {
+		it := probeItems[i]
+		probeClasses[p.class] = true
+		n := len(p.j.ops)
+		switch {
+		case it.hang != nil:
+			probesRun++
+			probeHangs++
+			hungCarriers[p.j.carrier] = true
+			reportHang(p.j, *it.hang)
+			if len(samples) < 8 {
+				samples = append(samples, map[string]interface{}{"carrier": p.j.carrier, "space": "liveness-probe", "from": p.state, "refused": p.j.ops[n-2], "then": p.j.ops[n-1], "observed": "did not finish: " + it.hang.detail, "problems": 1})
+			}
+		case it.skipped:
+			probesSkipped++
+		case it.done:
+			probesRun++
+			reportJob(p.j, it.res.probs)
+			for _, r := range it.res.refusals {
+				if r.Idx == n-2 { // R was refused by a panic that was recovered, then F ran first
+					probeRefusals++
+					nontrivial[p.j.carrier+"|probe|"+p.state+"|"+p.j.ops[n-2]+"|"+p.j.ops[n-1]] = true
+					wantF := map[string]string{"dup": "register", "ill-value": "query", "share-dup": "info"}[p.rclass]
+					if sk := p.j.carrier + p.rclass; !probeSampled[sk] && len(p.j.ops) == 3 && p.fkind == wantF && len(samples) < 9 {
+						probeSampled[sk] = true
+						samples = append(samples, map[string]interface{}{"carrier": p.j.carrier, "space": "liveness-probe", "from": p.state, "refused": p.j.ops[n-2], "then": p.j.ops[n-1], "observed": "refused by a recovered panic (class " + r.Class + "); the follow-up, made as the first call afterwards, and the reads after it returned: " + it.res.obs, "problems": len(it.res.probs)})
+					}
+				}
+			}
+		}
+	}
+	var hungList []string
+	for _, cn := range carrierNames {
+		if hungCarriers[cn] {
+			hungList = append(hungList, cn)
+		}
+	}
+	if os.Getenv("VERIF_C15_TIMING") != "" {
+		fmt.Fprintf(os.Stderr, "timing: liveness probes done at %.1fs (%d probes, %d run, %d hang verdicts, %d child processes)\n", time.Since(t0).Seconds(), len(probes), probesRun, probeHangs, atomic.LoadInt64(&childRuns))
+	}
+	atomic.StoreInt32(&stallWatch, 1)
 
 	// ---------------- BFS
 	//
@@ -1519,13 +1789,11 @@ func main() {
 	//              the pool), read ops and mutate ops are explored to closure, i.e. crossed.
 	const maxDepth = 7
 	states, transitions, traces := 0, 0, 0
-	nontrivial := map[string]bool{}
 	depthReached := 0
 	frontierEmpty := true
 	nilAcc, nilRef := 0, 0
 	mutProbes, mutProbesWriting := 0, 0
 	editTransitions, editSweeps := 0, 0
-	var samples []interface{}
 	sampleKinds := map[string]int{}
 	perCarrier := map[string]interface{}{}
 	subMutate := []string{"mutate:scribble"}
@@ -1535,9 +1803,6 @@ func main() {
 			subMutate = append(subMutate, "mutate:"+k)
 		}
 	}
-	// handler kinds of the descriptor-edit dimension per tier (the registration ops of the full-pool
-	// space always use all six)
-	sweepKinds := []string{"reg", "ill-other"}
 	subKinds := func(cn string) []string {
 		if rep.Tier == "thorough" {
 			return regKinds
@@ -1546,9 +1811,6 @@ func main() {
 			return []string{"reg", "reg-tnil", "reg-nil", "ill-other"}
 		}
 		return []string{"reg", "reg-nil", "ill-other"}
-	}
-	if rep.Tier == "thorough" {
-		sweepKinds = regKinds
 	}
 	subKindsUsed := map[string][]string{}
 	type space struct {
@@ -1592,6 +1854,11 @@ func main() {
 	}
 	for _, sp := range spaces {
 		cn, ops := sp.carrier, sp.ops
+		if hungCarriers[cn] {
+			// every path with a refused registration would not finish on this carrier
+			frontierEmpty = false
+			continue
+		}
 		type node struct {
 			key   string
 			path  []string
@@ -1615,7 +1882,9 @@ func main() {
 			}
 			return ns
 		}
-		r0 := runPath(job{cn, nil, true, false})
+		inflight.Store(-1, job{carrier: cn, all: true})
+		r0 := runPath(job{carrier: cn, all: true})
+		inflight.Delete(-1)
 		traces++
 		report(cn, nil, r0.probs)
 		visited := map[string]bool{nodeKey(r0): true}
@@ -1641,7 +1910,7 @@ func main() {
 			}
 			results := runAll(len(todo), func(i int) job {
 				_, _, path := pathOf(i)
-				return job{cn, path, false, false}
+				return job{carrier: cn, ops: path}
 			})
 			for i, res := range results {
 				nd, op, path := pathOf(i)
@@ -1673,11 +1942,11 @@ func main() {
 				if kind == "mutate" {
 					sk = op
 				}
-				if sp.label == "full-pool" && len(samples) < 24 && nd.key == "{p.Mixed}" && sampleKinds[cn+sk] == 0 && (isRegKind(kind) || kind == "mutate" || kind == "info") && (cn == "HandlerMap" || kind == "reg-nil" || op == "mutate:filter") {
+				if sp.label == "full-pool" && len(samples) < 33 && nd.key == "{p.Mixed}" && sampleKinds[cn+sk] == 0 && (isRegKind(kind) || kind == "mutate" || kind == "info") && (cn == "HandlerMap" || kind == "reg-nil" || op == "mutate:filter") {
 					sampleKinds[cn+sk]++
 					samples = append(samples, map[string]interface{}{"carrier": cn, "space": sp.label, "from": nd.key, "op": op, "to": k, "observed": res.obs, "problems": len(res.probs)})
 				}
-				if sp.label == "sub-pool" && len(samples) < 40 && isDescEditKind(kind) && sampleKinds[cn+"edit"+op] == 0 && nd.key == "{p.Mixed,p.Unary1}" && (strings.HasSuffix(op, ":p.Mixed>p.Streams") || op == "rename:p.Mixed>p.Unary1" || op == "share-reg:p.Mixed>p.Unary1") && (cn == "HandlerMap" || kind == "share-reg" || kind == "rename") {
+				if sp.label == "sub-pool" && len(samples) < 49 && isDescEditKind(kind) && sampleKinds[cn+"edit"+op] == 0 && nd.key == "{p.Mixed,p.Unary1}" && (strings.HasSuffix(op, ":p.Mixed>p.Streams") || op == "rename:p.Mixed>p.Unary1" || op == "share-reg:p.Mixed>p.Unary1") && (cn == "HandlerMap" || kind == "share-reg" || kind == "rename") {
 					sampleKinds[cn+"edit"+op]++
 					samples = append(samples, map[string]interface{}{"carrier": cn, "space": sp.label, "from": nd.key, "op": op, "to": k, "observed": res.obs, "problems": len(res.probs)})
 				}
@@ -1745,7 +2014,7 @@ func main() {
 			const chunk = 1 << 15
 			var batch [][]string
 			flush := func() {
-				results := runAll(len(batch), func(i int) job { return job{cn, batch[i], false, false} })
+				results := runAll(len(batch), func(i int) job { return job{carrier: cn, ops: batch[i]} })
 				for i, res := range results {
 					*count++
 					nilAcc += res.nilAcc
@@ -1768,6 +2037,9 @@ func main() {
 		}
 	}
 	for _, cn := range carrierNames {
+		if hungCarriers[cn] {
+			continue
+		}
 		regOps, _, _ := opsFor(cn)
 		alphabet := append(append([]string{}, regOps...), "mutate:scribble")
 		seqAlphabet[cn] = len(alphabet)
@@ -1778,6 +2050,9 @@ func main() {
 	}
 	editSeqKinds := map[string]interface{}{}
 	for _, cn := range carrierNames {
+		if hungCarriers[cn] {
+			continue
+		}
 		var names []string
 		for _, i := range subPool {
 			names = append(names, pool[i].name)
@@ -1838,9 +2113,26 @@ func main() {
 		nilTreatment = "accepted (like grpc.Server)"
 	}
 	os.Exit(rep.Finish("model_checking", map[string]interface{}{
-		"states":                            states,
-		"transitions":                       transitions,
-		"traces_validated_against_impl":     traces + sequences,
+		"states":                        states,
+		"transitions":                   transitions,
+		"traces_validated_against_impl": traces + sequences + probesRun,
+		"liveness_probes": map[string]interface{}{
+			"grammar":                        "carrier x prefix state (every set of at most max_prefix_registrations pool names, each held with a pointer or a typed-nil pointer handler) x R (every registration attempt the model refuses, or may refuse, in that state: 6 handler kinds x every pool name with a fresh descriptor object, and share-<kind>:<src>><new> for the share kinds) x F (the first operation made on the object after R: info | foreach | query of every pool name and of the unknown name | each of the 6 x names registration ops; after a share-R: info | foreach | query src / new / unknown | reg of the first unregistered name | reg of src)",
+			"probes":                         len(probes),
+			"per_carrier":                    probeCounts,
+			"max_prefix_registrations":       probeMaxRegs,
+			"share_kinds":                    sweepKinds,
+			"classes":                        len(probeClasses),
+			"run":                            probesRun,
+			"with_a_recovered_refusal":       probeRefusals,
+			"not_run_class_already_reported": probesSkipped,
+			"hang_verdicts":                  probeHangs,
+			"carriers_not_explored_further":  hungList,
+			"child_processes":                atomic.LoadInt64(&childRuns),
+			"hang_guard_s":                   hangGuard.Seconds(),
+			"hang_criteria":                  "the child's Go runtime reports that all goroutines are asleep (exact), or the child prints nothing for hang_guard_s",
+			"control":                        "the same sequence up to the op that hung, without the refused registrations, in a child process of its own; violation only if it completes, INCONCLUSIVE (exit 2) otherwise",
+		},
 		"bfs_paths_replayed":                traces,
 		"registration_sequences":            sequences,
 		"registration_sequence_length":      seqLen,
@@ -1863,12 +2155,14 @@ func main() {
 		"mutation_probes_that_wrote":        mutProbesWriting,
 		"fresh_nil_handler_registrations":   map[string]interface{}{"accepted": nilAcc, "refused": nilRef, "treatment": nilTreatment},
 		"reference_grpc_servers_built":      atomic.LoadInt64(&refServers),
-		"evaluations":                       traces + sequences,
+		"evaluations":                       traces + sequences + probesRun,
 		"distinct_nontrivial":               len(nontrivial),
-		"rule":                              "BFS over (carrier x set of (registered name, kind of handler held: pointer / typed-nil pointer / untyped nil, descriptor OBJECT held: its own or one shared with other names) x current ServiceName of every held descriptor object). Two spaces per carrier. FULL-POOL: 6 registration ops per pool descriptor (handler = pointer implementing the interface | typed-nil pointer of that type | untyped nil | pointer of another service's type | typed-nil pointer of another service's type | value of a pointer-receiver type; 6 descriptors on HandlerMap, 4 on the transports), the read ops (query x every pool name, an unknown name and the near misses of every pool name: leading, trailing, doubled, inner slash, proper prefix, proper suffix, extension, empty; ForEach on HandlerMap; GetServiceInfo) and 10 mutate ops (the caller edits in place EVERY result GetServiceInfo has handed out so far on the path, one op per kind of edit: 6 on the Methods slices incl. their spare capacity, 3 on the map, 1 overwriting everything reachable), explored to closure; around EVERY state reached, every enabled descriptor-edit op is swept (applied once, followed by the full state oracle, target not expanded): share-<kind>:<src>><new> = the descriptor object registered under <src> gets ServiceName <new> and is registered again with a new handler (kinds: see descriptor_edit_handler_kinds; src, new over all pool names of the carrier, new = src and new = an already registered name included), rename:<src>><new> = that object gets ServiceName <new> and nothing is registered (new over all pool names and a name outside the pool). SUB-POOL (3 descriptors with pairwise different method sets and metadata): registration ops, share ops (src x new over the 3 names), rename ops (src x the 3 names and a name outside the pool), query / ForEach / info ops and mutate ops (quick: the edit overwriting everything reachable; thorough: all 10) explored to closure, i.e. every reachable combination of sharing, current names and handler kinds is a state and gets every op. Each transition = fresh real object + fresh real grpc.Server, replay of the shortest path on both (the SAME descriptor objects are registered with, and renamed under, both) + the op, then the full state oracle (every read; lookup must return the descriptor object and handler registered under the name whatever the descriptor is called now; ForEach must visit the multiset of registered (descriptor, handler) pairs; GetServiceInfo compared with a fresh GetServiceInfo of that grpc.Server, whose handed-out results received the same edits). A mutate op is a differential probe made at every reached state: all reads before, the edit, all reads after; it must be a self loop. A transition is non-trivial when it is a registration attempt, an enabled descriptor-edit op (its source is registered, so it renames a descriptor the registry holds), a read in a non-empty registry, or a mutate op that wrote at least one slice element or map entry; distinct by (carrier, space, state, op). In addition every sequence over (registration ops + 'mutate:scribble') up to registration_sequence_length is replayed without state caching, and so is every sequence over the sub-pool alphabet (registration + share + rename ops + 'mutate:scribble') up to length 3 (thorough: also length 4 with handler kinds reg / ill-other) that contains a descriptor-edit op and in which every descriptor-edit op has a source.",
+		"rule":                              "LIVENESS PROBES (child processes, see liveness_probes): every (carrier, prefix state of <= max_prefix_registrations registrations, registration attempt R that is refused there, first operation F after R); non-trivial when R really panicked, the panic was recovered and F was then made as the first call on the object (distinct by carrier, state, R, F); F and the reads after it must return and answer as the model says. THEN BFS over (carrier x set of (registered name, kind of handler held: pointer / typed-nil pointer / untyped nil, descriptor OBJECT held: its own or one shared with other names) x current ServiceName of every held descriptor object). Two spaces per carrier. FULL-POOL: 6 registration ops per pool descriptor (handler = pointer implementing the interface | typed-nil pointer of that type | untyped nil | pointer of another service's type | typed-nil pointer of another service's type | value of a pointer-receiver type; 6 descriptors on HandlerMap, 4 on the transports), the read ops (query x every pool name, an unknown name and the near misses of every pool name: leading, trailing, doubled, inner slash, proper prefix, proper suffix, extension, empty; ForEach on HandlerMap; GetServiceInfo) and 10 mutate ops (the caller edits in place EVERY result GetServiceInfo has handed out so far on the path, one op per kind of edit: 6 on the Methods slices incl. their spare capacity, 3 on the map, 1 overwriting everything reachable), explored to closure; around EVERY state reached, every enabled descriptor-edit op is swept (applied once, followed by the full state oracle, target not expanded): share-<kind>:<src>><new> = the descriptor object registered under <src> gets ServiceName <new> and is registered again with a new handler (kinds: see descriptor_edit_handler_kinds; src, new over all pool names of the carrier, new = src and new = an already registered name included), rename:<src>><new> = that object gets ServiceName <new> and nothing is registered (new over all pool names and a name outside the pool). SUB-POOL (3 descriptors with pairwise different method sets and metadata): registration ops, share ops (src x new over the 3 names), rename ops (src x the 3 names and a name outside the pool), query / ForEach / info ops and mutate ops (quick: the edit overwriting everything reachable; thorough: all 10) explored to closure, i.e. every reachable combination of sharing, current names and handler kinds is a state and gets every op. Each transition = fresh real object + fresh real grpc.Server, replay of the shortest path on both (the SAME descriptor objects are registered with, and renamed under, both) + the op, then the full state oracle (every read; lookup must return the descriptor object and handler registered under the name whatever the descriptor is called now; ForEach must visit the multiset of registered (descriptor, handler) pairs; GetServiceInfo compared with a fresh GetServiceInfo of that grpc.Server, whose handed-out results received the same edits). A mutate op is a differential probe made at every reached state: all reads before, the edit, all reads after; it must be a self loop. A transition is non-trivial when it is a registration attempt, an enabled descriptor-edit op (its source is registered, so it renames a descriptor the registry holds), a read in a non-empty registry, or a mutate op that wrote at least one slice element or map entry; distinct by (carrier, space, state, op). In addition every sequence over (registration ops + 'mutate:scribble') up to registration_sequence_length is replayed without state caching, and so is every sequence over the sub-pool alphabet (registration + share + rename ops + 'mutate:scribble') up to length 3 (thorough: also length 4 with handler kinds reg / ill-other) that contains a descriptor-edit op and in which every descriptor-edit op has a source.",
 		"samples":                           samples,
-		"exhaustive":                        frontierEmpty,
+		"exhaustive":                        frontierEmpty && probesSkipped == 0 && len(hungList) == 0,
 	}, []string{
+		"liveness after a refused registration: 'refused by panicking and leaves earlier registrations intact' is read as: once the caller has recovered the panic, every operation of the registry still returns (info, lookup / dispatch, iteration, further registrations, accepted or refused in turn) and answers as before. The liveness probes make each kind of operation the FIRST call after each kind of refusal in every prefix state of at most max_prefix_registrations registrations, each probe on a fresh object, one probe at a time in a child process with nothing else running (so that what a hung probe leaves behind, also in package-level state, reaches neither another probe nor a control). The refusal classes: dup (acceptable handler, name taken), nil (fresh name, untyped nil, if the library refuses it), ill-other / ill-tnil / ill-value (handler of the wrong type, name fresh or taken), and the same with a re-used, renamed descriptor object (share-*). A hang is reported only when the control -- the same sequence up to the op that hung, without the refused registrations -- completes; otherwise the run is INCONCLUSIVE (exit 2). In the BFS and in the uncached sequences every refused registration of every reached state is followed by all reads as well (in this process); if cases stop finishing there for 30 s, the cases in flight are judged in child processes in the same way. Once a probe class (carrier, refusal class, kind of follow-up) has a hang verdict its remaining probes are not run (they would carry the same fingerprint), and a carrier with a hang verdict is not explored by the later phases (every path with a refused registration would hang); both make the run non-exhaustive and are counted in liveness_probes.",
+		"a hang is decided without a wall-clock tolerance where possible: a probe child runs the case on its only goroutine with no timer, so a case blocked on a lock or channel for good makes the Go runtime end the child with 'all goroutines are asleep - deadlock!'; the hang guard (no output for hang_guard_s; a case takes milliseconds) is the fallback for hangs that keep a goroutine or timer alive",
 		"pool of 4 descriptors (0-2 unary, 0-2 streams covering all four flag pairs, nil/string/struct Metadata) + on HandlerMap a 5th whose ServiceName is \"/p.Unary1\" next to p.Unary1 and a 6th, p.Dup, with repeated method names (a unary method listed twice, a stream of the same name as a unary method, a stream listed twice) (such names cannot be addressed through the transports' /service/method paths, so it is not registered there) + 1 unknown name + near-miss names",
 		"on the two transports, lookup is observed by dispatching every method of the service (in-process Invoke/NewStream; HTTP ServeHTTP on a recorder) and identifying descriptor and handler instance that ran",
 		"untyped nil handler: " + nilHandlerRule,
